@@ -111,8 +111,16 @@ def short_args(args):
 X86_POOL = ["mm256_loadu_ps", "mm256_storeu_ps", "mm256_fmadd_ps", "mm256_mul_ps", "mm256_add_ps", "mm256_setzero_ps", "avx2_reg_copy_ps", "mm256_prefix_store_ps", "mm256_prefix_load_ps", "avx2_mask_storeu_ps", "mm256_broadcast_ss_scalar", "avx2_reduce_add_wide_ps"]
 
 
+_DIRTY = False  # set when an operation was seen to modify a corpus procedure in place (C07): rebuild the corpus
+
+
 def load_env(extra=None):
+    global _DIRTY
     import corpus.seeds as S
+
+    if _DIRTY:
+        S = importlib.reload(S)
+        _DIRTY = False
 
     env = {"SEEDS": S.SEEDS, "SUBPROCS": list(S.SUBPROCS), "CONFIGS": S.CONFIGS, "ORIGIN": dict(S.ORIGIN)}
     if extra == "tight_replace":
@@ -366,6 +374,7 @@ def sweep_seed(job):
         out["instances"].append(rec0)
     live = [p] + [sp for sp in env["SUBPROCS"]]
     n_attempt = 0
+    corrupted = False
     for opname in sorted(ops):
         if job.get("atomic", True) is False:
             break
@@ -377,9 +386,12 @@ def sweep_seed(job):
         except Exception as ex:
             out["errors"].append(f"candidate generation {opname}: {type(ex).__name__}: {ex}")
             continue
+        n_acc = 0
         for args in cands:
             if time.time() - t_start > budget_s:
                 out["stats"]["budget_exhausted"] = True
+                break
+            if n_acc >= cap:
                 break
             n_attempt += 1
             rec = {"op": opname, "args": short_args(args), "enc": None}
@@ -398,8 +410,19 @@ def sweep_seed(job):
                 rec["tb"] = traceback.format_exc()[-1500:]
             rec.pop("_q_obj", None)
             rec.pop("_trace", None)
+            if rec.get("status") == "accepted":
+                n_acc += 1
             out["instances"].append(rec)
-    if job.get("composites"):
+            if rec.get("c07_violation"):
+                corrupted = True
+                globals()["_DIRTY"] = True
+                break
+        if corrupted:
+            # an operation changed the source procedure itself: everything after this point would be judged
+            # against a different program, so the job for this seed ends here
+            out["stats"]["stopped_after_impurity"] = True
+            break
+    if job.get("composites") and not corrupted:
         from .composites import composite_ops, composite_candidates
 
         cops = composite_ops()
@@ -451,7 +474,7 @@ def sweep_seed(job):
                             rec["c04_p_compiles"] = False
                     out["instances"].extend(extra)
                 out["instances"].append(rec)
-    if job.get("grid"):
+    if job.get("grid") and not corrupted:
         from .tight_sched import grid as _grid
 
         seen_q = set()
@@ -523,9 +546,14 @@ def _one_instance(ctx: ProcCtx, p, op, opname, args, props, live, rec, env, boun
             lp = live[k]
             # decide with the solver whether behaviour changed
             if lp is p:
-                r_again = ctx.symbolic_run(lp._loopir_proc, tag="p_")
-                v = ctx.compare(lp._loopir_proc, r2=r_again, assume_safe_p=False)
-                bad.append({"proc": lp.name(), "text_changed": str(lp) != snap.txt[k], "behaviour": v.status, "detail": v.detail, "before": snap.txt[k], "after": str(lp)})
+                try:
+                    r_again = ctx.symbolic_run(lp._loopir_proc, tag="p_")
+                    v = ctx.compare(lp._loopir_proc, r2=r_again, assume_safe_p=False)
+                    beh, det = v.status, v.detail
+                except (Unsupported, TooBig, L.IllFormed) as exc:
+                    # the existing procedure has been damaged so badly that it has no meaning any more
+                    beh, det = "not-encodable", f"{type(exc).__name__}: {exc}"
+                bad.append({"proc": lp.name(), "text_changed": str(lp) != snap.txt[k], "behaviour": beh, "detail": det, "before": snap.txt[k], "after": str(lp)})
             else:
                 bad.append({"proc": lp.name(), "text_changed": str(lp) != snap.txt[k], "behaviour": "not-encoded", "before": snap.txt[k], "after": str(lp)})
         for c, node in pre_cursors or []:
